@@ -105,6 +105,30 @@ def run(res):
     def oracle(cfg, ops, reports, files, chdir, mrep, mfiles, hist):
         rej = [i for i, r in enumerate(reports) if r[0] != 0]
         nrej[0] += len(rej)
+        # which calls the property itself requires to be rejected (a shadow cursor over the calls it accepts)
+        cur = 0
+        for i, (op, r) in enumerate(zip(ops, reports)):
+            if op[0] == "w":
+                ns = cur if op[1] is None else op[1]
+                must = ns < cur
+                nxt = ns + op[2] if op[2] > 0 else cur
+            elif op[0] == "b":
+                G, D, total = list(op[3]), list(op[4]), op[1]
+                must = not (len(G) == len(D) and len(G) > 0 and G[0] >= cur and D[0] == 0
+                            and all(b > a for a, b in zip(D, D[1:])) and all(b > a for a, b in zip(G, G[1:]))
+                            and D[-1] < total and all((d2 - d1) <= (g2 - g1) for d1, d2, g1, g2 in zip(D, D[1:], G, G[1:])))
+                nxt = (G[-1] + (total - D[-1])) if not must else cur
+            else:
+                continue
+            if must and r[0] == 0:
+                res.violation("call-that-must-be-rejected-accepted", "a write at or before a written index / a malformed block description was accepted",
+                              dict(hist, call=i, cursor=cur), "rejected with an error", r[:5])
+                break
+            if not must and r[0] != 0:
+                res.violation("valid-call-rejected", "a valid write was rejected", dict(hist, call=i, cursor=cur), "accepted", r[:5])
+                break
+            if not must:
+                cur = nxt
         for i in rej:
             prev = reports[i - 1][2:5] if i > 0 else [0, 0, 0]
             if reports[i][2:5] != prev:
